@@ -7,6 +7,7 @@ import (
 	"encoding/hex"
 	"encoding/json"
 	"fmt"
+	"strings"
 
 	"verifharness/core"
 	ss "verifharness/streamsim"
@@ -83,8 +84,8 @@ func check(d *desc, obs *ss.Obs) error {
 			}
 			for ri, r := range po.RRes {
 				if !r.OK {
-					if st.SoftFail && ri == len(st.ROps)-1 && st.ROps[ri].Op == "end" {
-						continue // the scripted, expected refusal of EndMessageRead on an unconsumed message
+					if st.SoftFail && ri == len(st.ROps)-1 && (st.ROps[ri].Op == "end" || strings.Contains(r.Err, "EOF")) {
+						continue // the scripted, expected refusal of EndMessageRead on an unconsumed message, or a read that ran dry at a frame boundary
 					}
 					return fmt.Errorf("step %d: receive op %d failed after hand-off history: %s", i, ri, r.Err)
 				}
@@ -323,6 +324,12 @@ func gen(c *core.Ctx) error {
 			[]ss.Step{{Kind: "phase", ASends: true, ROps: []ss.ROp{{Op: "read", N: 7}, {Op: "end"}}}, both[0], both[1]}},
 		{"inbound message started, EndMessageRead tried at once and rejected", keyed0, append(append([]ss.Step{}, both...), ss.Step{Kind: "phase", ASends: true, SOps: direct(5, 5).SOps(), ROps: []ss.ROp{{Op: "start"}, {Op: "end"}}, SoftFail: true}), false,
 			[]ss.Step{{Kind: "phase", ASends: true, ROps: []ss.ROp{{Op: "read", N: 5}, {Op: "end"}}}, both[1]}},
+		{"first frame of an inbound message read, the read of the next frame ran dry (timeout), then a hand-off attempt", keyed,
+			append(append([]ss.Step{}, both...), ss.Step{Kind: "phase", ASends: true, SOps: []ss.SOp{{Op: "partial", D: ss.Pay(4, 7)}}, ROps: []ss.ROp{{Op: "start"}}, SoftFail: true}), false,
+			[]ss.Step{{Kind: "phase", ASends: true, SOps: []ss.SOp{{Op: "send", D: ss.Pay(5, 3)}}, ROps: []ss.ROp{{Op: "start"}, {Op: "read", N: 10}, {Op: "end"}}}, both[1], both[0]}},
+		{"two frames of an inbound message read, the third missing (timeout), then a hand-off attempt", keyed0,
+			append(append([]ss.Step{}, both...), ss.Step{Kind: "phase", ASends: true, SOps: []ss.SOp{{Op: "partial", D: ss.Pay(4, 5)}, {Op: "partial", D: ss.Pay(6, 1)}}, ROps: []ss.ROp{{Op: "start"}}, SoftFail: true}), false,
+			[]ss.Step{{Kind: "phase", ASends: true, SOps: []ss.SOp{{Op: "send", D: ss.Pay(7, 2)}}, ROps: []ss.ROp{{Op: "start"}, {Op: "read", N: 3}, {Op: "read", N: 5}, {Op: "end"}}}, both[0]}},
 		{"encryption switched off", keyed, append(append([]ss.Step{}, both...), ss.Step{Kind: "crypto", WhoA: true, On: false}), true,
 			[]ss.Step{{Kind: "crypto", WhoA: true, On: true}, both[0]}},
 		{"stream never keyed", ss.Setup{Kind: "plain"}, both, true, both},
